@@ -332,13 +332,38 @@ impl<'a> Gen<'a> {
             }
             Ty::Mut(inner) => {
                 // cells are invariant: declare the content type explicitly
-                let (e, t) = self.expr(inner, depth.saturating_sub(1));
-                self.tag("expr:mut");
-                if t == **inner && (self.p.inferred_union_cells || !matches!(t, Ty::Union(_))) && self.pct(40) {
-                    // cell type inferred from the initial value's static type
-                    self.tag("expr:mut-inferred");
-                    return (E::MutInf(t.clone(), Box::new(e)), Ty::mutc(t));
+                // cell type inferred from the initial value's static type: only for initial values whose static type the
+                // generator knows exactly (literals, and `[lit, lit][k]` for a union) - the types it tracks for other
+                // expressions are upper bounds (a `!`-typed operand makes the real type `!`)
+                if self.pct(35) {
+                    let lit = |g: &mut Self, t: &Ty| -> Option<E> {
+                        Some(match t {
+                            Ty::Int => E::Int(g.small_int()),
+                            Ty::Str => E::Str((*g.rng.pick(&["", "a", "bc"])).to_string()),
+                            Ty::Float => E::Float(*g.rng.pick(&[0.0, 1.5, -0.5])),
+                            Ty::Bool => E::Bool(g.rng.chance(1, 2)),
+                            _ => return None,
+                        })
+                    };
+                    let exact: Option<E> = match &**inner {
+                        Ty::Union(ms) if self.p.inferred_union_cells && ms.len() == 2 => {
+                            let ms: Vec<Ty> = ms.iter().cloned().collect();
+                            match (lit(self, &ms[0]), lit(self, &ms[1])) {
+                                (Some(a), Some(b)) => Some(E::Index(Box::new(E::Arr(vec![a, b])), Box::new(E::Int(self.rng.range(0, 1))))),
+                                _ => None,
+                            }
+                        }
+                        t => lit(self, t),
+                    };
+                    if let Some(e) = exact {
+                        self.tag("expr:mut");
+                        self.tag("expr:mut-inferred");
+                        let e = self.maybe_tick(e, inner);
+                        return (E::MutInf((**inner).clone(), Box::new(e)), Ty::mutc((**inner).clone()));
+                    }
                 }
+                let (e, _) = self.expr(inner, depth.saturating_sub(1));
+                self.tag("expr:mut");
                 (E::Mut(Some((**inner).clone()), Box::new(e)), Ty::mutc((**inner).clone()))
             }
             Ty::Fun(ps, r) => self.fun_expr(ps, r, depth),
